@@ -1,7 +1,7 @@
 #!/bin/sh
-# dev/mut.sh <patch-file> <check args...> : apply patch to /repo, run ./vcheck, revert. Development only.
+# dev/mut.sh <patch-file> <check args...> : apply patch to /repo, run ./vcheck, revert (git apply -R). Development only.
 P="$1"; shift
 git -C /repo apply "$P" || { echo "patch failed"; exit 9; }
 cd /verif && ./vcheck "$@" --no-evidence; rc=$?
-git -C /repo checkout -- . 
+git -C /repo apply -R "$P"
 echo "exit=$rc"
